@@ -1053,7 +1053,10 @@ func c06RandRigCase(r *rand.Rand, cores int, withFlush bool) c06RigCase {
 		c.MemSize = 8192
 		x := int32(r.Intn(8)*128 + r.Intn(2)*64 + r.Intn(16)*4)
 		c.Ops = append(c.Ops, c06Op{Core: 0, Kind: "w", Addr: x, Width: 4, Delay: r.Intn(3), Val: int32(r.Uint32())})
-		c.Ops = append(c.Ops, c06Op{Core: 1, Kind: "r", Addr: x - x%4, Width: 4, Delay: 700 + r.Intn(40)})
+		keepModified := r.Intn(2) == 0 // nobody else reads the line: core 0 still holds it Modified when its L3 line goes
+		if !keepModified {
+			c.Ops = append(c.Ops, c06Op{Core: 1, Kind: "r", Addr: x - x%4, Width: 4, Delay: 700 + r.Intn(40)})
+		}
 		sw := cores - 1 // the sweeping core must not be the one that keeps the Shared copy (core 1)
 		if sw == 1 {
 			sw = 0
@@ -1069,6 +1072,18 @@ func c06RandRigCase(r *rand.Rand, cores int, withFlush bool) c06RigCase {
 				k = "w"
 			}
 			c.Ops = append(c.Ops, c06Op{Core: sw, Kind: k, Addr: int32(1024 + j*128 + r.Intn(32)*4), Width: 4, Delay: d, Val: int32(r.Uint32())})
+		}
+		if keepModified {
+			if sw == 0 {
+				sw = 1
+			}
+			for i := range c.Ops {
+				if i > 0 {
+					c.Ops[i].Core = sw
+				}
+			}
+			c.Ops = append(c.Ops, c06Op{Core: 0, Kind: "w", Addr: x, Width: 4, Delay: 14000 + r.Intn(50), Val: int32(r.Uint32())})
+			return c
 		}
 		c.Ops = append(c.Ops, c06Op{Core: 0, Kind: "r", Addr: x - x%4, Width: 4, Delay: 100 + r.Intn(50)})
 		return c
